@@ -315,6 +315,18 @@ example : RemapFuel rmInput rmPtx rmPrefix (some rmG200) 3 5 := by
   simp only [Except.map, Except.ok.injEq] at this
   exact .inl this.symm
 
+/-- … and, the input being well-formed, any larger fuel: 50 -/
+example : RemapFuel rmInput rmPtx rmPrefix (some rmG200) 3 50 := by
+  refine remap_fuel_of_wf _ _ _ _ _ _ (by decide) ?_
+  intro b₁ h
+  have : (findAssemblyOverlaps rmInput rmPtx (remapStart rmInput rmPrefix (some rmG200) 3)).map (fun b => totalRows b.store + 2)
+      = .ok 5 := by decide +kernel
+  rw [h] at this
+  simp only [Except.map, Except.ok.injEq] at this
+  omega
+example : (Gen.Imp.BuildAssembly_remap_to_input_assembly 50 [] 4 [] { autosome_prefix := rmPrefix } [] [] 0 rmPtx rmInput 3 rmG200
+      (inputOverlaps rmInput)).map (fun t => (t.1, t.2.1)) = .ok (rmStore2, 6) := by decide +kernel
+
 /-- THE END-TO-END EXAMPLE, source side: the contig `a` is cut at 60 | 61 into two new objects (ids 4 and 5, tag "Cut", one cut
     counted, object-id counter at 6); the contig `b` is left over: one object, named after its input scaffold `s1`, rank 3, added, with
     its `input_predecessor` (`a` and the gap behind it); the namer last named that left-over scaffold -/
